@@ -53,6 +53,10 @@ fn numeral_expectation(text: &str) -> Exp<Num> {
 /// (its grammar has '_' separators etc., which is C05's business); for strict numerals the
 /// reference parser must agree, which the caller checks via `string_reference_agrees`.
 pub fn string_expectation(s: &str) -> Exp<Num> {
+    // text without even the permissive shape of a numeral is "non-numeric input": an error, whatever the parser says
+    if !crate::refdec::has_numeral_shape(s) {
+        return Exp::Err("string does not have the shape of a decimal numeral");
+    }
     match crate::framework::catch(|| BigDecimal::from_str(s)) {
         Ok(Ok(d)) => {
             let (i, sc) = d.as_bigint_and_exponent();
